@@ -461,6 +461,180 @@ func tamperConstruct(r *hx.RNG, k, parity int, msg []byte) {
 	}
 }
 
+
+// ---------- Merkle layer alone: merkle.New / Proof.Verify against the model's tree over abstract leaves ----------
+// The model's tree is parametric in the leaf data (TL d), so the oracle is asked once per leaf count for
+// the tree over the one-byte leaves 00, 01, ...; leaf i is then substituted by the real data and the
+// terms are evaluated with SHA-256 and the model's tags.
+var shapeCache = map[int][2]string{}
+
+func evalTermSub(s string, pos *int, leaves [][]byte) [32]byte {
+	switch s[*pos] {
+	case 'L':
+		*pos++
+		end := strings.IndexByte(s[*pos:], '.') + *pos
+		idx := unhex(s[*pos:end])
+		*pos = end + 1
+		var data []byte // the padding leaf hashes no data
+		if len(idx) == 1 {
+			data = leaves[idx[0]]
+		}
+		return sha256.Sum256(slices.Concat(tags[0], data, tags[1]))
+	case 'N':
+		*pos++
+		l := evalTermSub(s, pos, leaves)
+		r := evalTermSub(s, pos, leaves)
+		return sha256.Sum256(slices.Concat(tags[2], l[:], tags[3], r[:], tags[4]))
+	}
+	hx.Fatalf("bad shape term %q at %d", s, *pos)
+	return [32]byte{}
+}
+
+func merkleShape(n int) (string, []string) {
+	if sh, ok := shapeCache[n]; ok {
+		return sh[0], strings.Split(sh[1], "|")
+	}
+	ls := make([]string, n)
+	for i := range ls {
+		ls[i] = fmt.Sprintf("%02x", i)
+	}
+	rep := or.Ask("merkle "+strings.Join(ls, ","), 2)
+	shapeCache[n] = [2]string{strings.TrimPrefix(rep[0], "root "), strings.TrimPrefix(rep[1], "proofs ")}
+	return merkleShape(n)
+}
+
+func tailPositions(n int) map[string]int {
+	res := map[string]int{}
+	if n >= 1 {
+		res["first"] = 0
+		res["middle"] = n / 2
+		res["last"] = n - 1
+	}
+	if n >= 2 {
+		res["last2"] = n - 2
+	}
+	return res
+}
+
+func merkleDirect(r *hx.RNG, lens []int) {
+	n := len(lens)
+	leaves := make([][]byte, n)
+	for i, l := range lens {
+		leaves[i] = make([]byte, l)
+		for j := range leaves[i] {
+			leaves[i][j] = byte(r.U64())
+		}
+	}
+	rootT, proofsT := merkleShape(n)
+	root, tree := merkle.New(leaves)
+	rp := map[string]any{"kind": "merkle", "lens": lens, "seed": c.Seed}
+	c.Count(fmt.Sprintf("M/%v/%x", lens, root[:6]), true)
+	c.Hist[fmt.Sprintf("merkle-direct:n=%d", n)]++
+	p := 0
+	if want := evalTermSub(rootT, &p, leaves); want != [32]byte(root) {
+		c.Violation("merkle-root-vs-model", fmt.Sprintf("merkle.New over leaves of lengths %v: root differs from SHA-256 over the model's tree", lens), rp, true)
+	}
+	if len(tree) != n {
+		c.Violation("merkle-proof-count", fmt.Sprintf("merkle.New returned %d proofs for %d leaves", len(tree), n), rp, true)
+		return
+	}
+	for i := 0; i < n; i++ {
+		var sibs []string
+		if proofsT[i] != "-" {
+			sibs = strings.Split(proofsT[i], ",")
+		}
+		if len(sibs) != len(tree[i].Siblings) {
+			c.Violation("merkle-proof-length-vs-model", fmt.Sprintf("leaf %d of %d: %d siblings, model %d", i, n, len(tree[i].Siblings), len(sibs)), rp, true)
+			continue
+		}
+		for j, t := range sibs {
+			q := 0
+			if evalTermSub(t, &q, leaves) != [32]byte(tree[i].Siblings[j]) {
+				c.Violation("merkle-sibling-vs-model", fmt.Sprintf("leaf %d sibling %d differs from the model (leaf lengths %v)", i, j, lens), rp, true)
+			}
+		}
+		// completeness on the implementation
+		if !tree[i].Verify(&root, leaves[i], uint32(i)) {
+			c.Violation("merkle-proof-does-not-verify", fmt.Sprintf("Proof.Verify false for leaf %d (length %d) of %d", i, lens[i], n), rp, false)
+		}
+		// soundness on the implementation: a leaf changed in one byte / one byte shorter / longer must not verify
+		for name, pos := range tailPositions(lens[i]) {
+			t := append([]byte{}, leaves[i]...)
+			t[pos] ^= 1 << r.Intn(8)
+			if tree[i].Verify(&root, t, uint32(i)) {
+				c.Violation("merkle-verify-accepts-tampered-leaf:"+name, fmt.Sprintf("Proof.Verify accepts leaf %d (length %d) with byte %d flipped", i, lens[i], pos),
+					map[string]any{"kind": "merkle", "lens": lens, "seed": c.Seed, "leaf": i, "pos": pos}, false)
+			}
+		}
+		if lens[i] > 0 && tree[i].Verify(&root, leaves[i][:lens[i]-1], uint32(i)) {
+			c.Violation("merkle-verify-accepts-tampered-leaf:truncated", fmt.Sprintf("Proof.Verify accepts leaf %d (length %d) with its last byte cut", i, lens[i]), rp, false)
+		}
+		if tree[i].Verify(&root, append(append([]byte{}, leaves[i]...), 0), uint32(i)) {
+			c.Violation("merkle-verify-accepts-tampered-leaf:extended", fmt.Sprintf("Proof.Verify accepts leaf %d (length %d) with a zero byte appended", i, lens[i]), rp, false)
+		}
+	}
+}
+
+// message length whose padding gives exactly k shards of the wanted (even) size
+func msgLenForShard(size, k int) int {
+	for vl := 1; vl <= 4; vl++ {
+		m := size*k - vl
+		if m >= 0 && len(propeller.PadMessage(make([]byte, m), k)) == size*k {
+			return m
+		}
+	}
+	return -1
+}
+
+// a byte flipped at the first / middle / second-to-last / last position of one present shard, with exactly
+// k units present (every present shard is used by the decoder) and with all present
+func tamperTail(r *hx.RNG, k, parity int, msg []byte) {
+	n := k + parity
+	units, err := propeller.CreatePropellerUnits(pub.priv, &cid, 0, msg, k, parity)
+	hx.Must(err)
+	size := len(units[0].ShardData[0])
+	for name, pos := range tailPositions(size) {
+		for _, exact := range []bool{true, true, false} {
+			perm := make([]int, n)
+			for i := range perm {
+				perm[i] = i
+			}
+			for i := n - 1; i > 0; i-- {
+				j := r.Intn(i + 1)
+				perm[i], perm[j] = perm[j], perm[i]
+			}
+			cnt := n
+			if exact {
+				cnt = k
+			}
+			present := append([]int{}, perm[:cnt]...)
+			slices.Sort(present)
+			ptrs := make([]*propeller.Unit, n)
+			for _, i := range present {
+				ptrs[i] = copyUnit(&units[i])
+			}
+			victim := present[r.Intn(len(present))]
+			ptrs[victim].ShardData[0][pos] ^= 1 << r.Intn(8)
+			got, gm := realConstruct(ptrs, r.Intn(n), k, parity)
+			hk := strings.SplitN(got, ":", 3)[0]
+			if hk == "err" {
+				hk = got
+			}
+			ex := map[bool]string{true: "exactly-k", false: "all"}[exact]
+			c.Hist["tamper-byte:"+name+":"+ex+":"+hk]++
+			c.Count(fmt.Sprintf("TT/%d/%d/%d/%s/%v/%d", k, parity, len(msg), name, present, victim), true)
+			rp := map[string]any{"kind": "tamper-byte", "k": k, "parity": parity, "msg_len": len(msg), "msg": tohex(msg[:min(len(msg), 64)]) + "...", "shard_size": size, "pos": pos, "victim": victim, "present": present}
+			switch {
+			case got == "panic":
+				c.Violation("tampered-unit-panics-construct:shard-"+name, fmt.Sprintf("ConstructMessageFromUnits panicked (shard %d byte %d flipped, k=%d parity=%d)", victim, pos, k, parity), rp, false)
+			case strings.HasPrefix(got, "ok:") && !bytes.Equal(gm, msg):
+				c.Violation("tampered-unit-changes-message:shard-"+name,
+					fmt.Sprintf("shard %d (size %d) with byte %d flipped, %d of %d units present (k=%d): a different message was delivered under the honest root", victim, size, pos, len(present), n, k), rp, false)
+			}
+		}
+	}
+}
+
 // ---------- part C: the validator ----------
 type CaseV struct {
 	Kind  string   `json:"kind"`
@@ -874,6 +1048,26 @@ func main() {
 			var cv CaseV
 			c.LoadReplay(&cv)
 			runCaseV(cv, true)
+		case "merkle":
+			var rm struct {
+				Lens []int  `json:"lens"`
+				Seed uint64 `json:"seed"`
+			}
+			c.LoadReplay(&rm)
+			for sd := uint64(0); sd < 8; sd++ {
+				merkleDirect(hx.NewRNG(rm.Seed+sd), rm.Lens)
+			}
+		case "tamper-byte":
+			var rt struct {
+				K      int `json:"k"`
+				Parity int `json:"parity"`
+				MsgLen int `json:"msg_len"`
+			}
+			c.LoadReplay(&rt)
+			for sd := uint64(0); sd < 8; sd++ {
+				rr := hx.NewRNG(sd)
+				tamperTail(rr, rt.K, rt.Parity, msgOf(rr, rt.MsgLen))
+			}
 		default:
 			var rp struct {
 				K, Parity int
@@ -1016,6 +1210,75 @@ func main() {
 	}
 	c.Extra["create_construct_cases"] = nB
 
+	// ---- M. the Merkle layer alone, leaf lengths around buffer / block boundaries, 1..9 leaves ----
+	var mlens []int
+	mlens = append(mlens, 0, 1, 31, 32, 33, 55, 56, 57, 63, 64, 65, 119, 120, 121, 127, 128, 129, 255, 256, 257, 500)
+	for l := 1000; l <= 1050; l++ {
+		mlens = append(mlens, l)
+	}
+	mlens = append(mlens, 2047, 2048, 2049, 4095, 4096, 4097, 65535, 65536, 65537)
+	for i := 0; i < 6; i++ {
+		mlens = append(mlens, r.Intn(70001))
+	}
+	nM := 0
+	for li, l := range mlens {
+		// all leaves of that length (leaf count cycles through 1..9) ...
+		n := 1 + li%9
+		ls := make([]int, n)
+		for i := range ls {
+			ls[i] = l
+		}
+		merkleDirect(r.Fork(uint64(li)), ls)
+		nM++
+		// ... and a tree mixing it with other boundary lengths (smaller ones, to bound the cost)
+		n2 := 1 + (li*5+3)%9
+		ls2 := make([]int, n2)
+		for i := range ls2 {
+			ls2[i] = mlens[r.Intn(len(mlens))]
+			if ls2[i] > 5000 {
+				ls2[i] %= 1100
+			}
+		}
+		ls2[r.Intn(n2)] = l
+		merkleDirect(r.Fork(uint64(li)+7777), ls2)
+		nM++
+	}
+	c.Extra["merkle_direct_cases"] = nM
+
+	// ---- B2. create -> subset -> construct with shard sizes on those boundaries; byte flips at the
+	//          first / middle / second-to-last / last position with exactly k units present ----
+	kps := [][2]int{{1, 1}, {2, 1}, {2, 2}, {3, 2}, {1, 3}, {3, 3}, {4, 2}, {2, 3}}
+	var sizes []int
+	sizes = append(sizes, 2, 32, 56, 64, 120, 128, 256, 500)
+	for sz := 1000; sz <= 1050; sz += 2 {
+		sizes = append(sizes, sz)
+	}
+	sizes = append(sizes, 2048, 4096, 65536)
+	nB2 := 0
+	for si, sz := range sizes {
+		kp := kps[si%len(kps)]
+		k, parity := kp[0], kp[1]
+		ml := msgLenForShard(sz, k)
+		if ml < 0 {
+			continue
+		}
+		msg := msgOf(r, ml)
+		if sz <= 4096 && (sz < 1000 || sz > 1050 || sz%4 == 0 || thorough) {
+			// with the model (a few subsets incl. exactly-k and shard-0-missing)
+			runCaseB(CaseB{Kind: "B", K: k, Parity: parity, Local: r.Intn(k + parity), Msg: tohex(msg), Nonce: int64(r.Intn(3)), Masks: someMasks(r, k+parity, k, 5)}, false)
+		}
+		tamperTail(r.Fork(uint64(si)), k, parity, msg)
+		c.Hist[fmt.Sprintf("B2:shard-size-%s", map[bool]string{true: "1000..1050", false: "other"}[sz >= 1000 && sz <= 1050])]++
+		nB2++
+	}
+	// the same byte positions on the ordinary small cases
+	for _, l := range []int{0, 1, 5, 30, 127, 128, 300} {
+		for _, kp := range kps {
+			tamperTail(r.Fork(uint64(l)), kp[0], kp[1], msgOf(r, l))
+		}
+	}
+	c.Extra["boundary_shard_cases"] = nB2
+
 	// ---- C. the validator: units as made, validator-consistent variants, single-field corruptions ----
 	nV := 0
 	rounds := 12
@@ -1073,11 +1336,49 @@ func main() {
 			nV++
 		}
 	}
+	// validator: shards whose protobuf leaf (shard + ~6 bytes) lands on the same boundaries, the shard
+	// tampered at its first / middle / second-to-last / last byte, sent by the right sender
+	for _, sz := range []int{58, 122, 250, 1008, 1010, 1012, 1014, 1016, 1018, 1020, 1022, 1024, 1026, 2042, 4090} {
+		n := 4 // k = 1, parity = 2
+		ms := committee(n)
+		local, pubr := 1, 2
+		nodes := make([]propeller.PeerCommittee, n)
+		for i := range ms {
+			nodes[i] = propeller.PeerCommittee{ID: ms[i].id, Stake: 1}
+		}
+		sch, err := propeller.NewScheduler(ms[local-1].id, nodes)
+		hx.Must(err)
+		ml := msgLenForShard(sz, 1)
+		if ml < 0 {
+			continue
+		}
+		var steps []string
+		for idx := 0; idx < sch.NumTotalShards(); idx++ {
+			e, err := sch.PeerForShardIndex(ms[pubr-1].id, propeller.ShardIndex(idx))
+			hx.Must(err)
+			sender := pubr
+			for rk, m := range ms {
+				if m.id == e && rk+1 != local {
+					sender = rk + 1
+				}
+			}
+			for _, pos := range []int{0, sz / 2, sz - 2, sz - 1} {
+				steps = append(steps, fmt.Sprintf("%d:data%d:%d", idx, pos, sender))
+			}
+			steps = append(steps, fmt.Sprintf("%d:none:%d", idx, sender))
+		}
+		for _, mode := range []string{"proto", "raw"} {
+			runCaseV(CaseV{Kind: "V", N: n, Local: local, Pub: pubr, Mode: mode, Copy: 1, Nonce: 3, Msg: tohex(msgOf(r, ml)), Steps: steps}, false)
+			nV++
+		}
+	}
 	c.Extra["validator_cases"] = nV
 	c.Extra["unit_families"] = "raw+copy=1 = exactly CreatePropellerUnits' output; copy=0 = Unit.Nonce stripped to 0 (variant); proto = same shards with the tree built over ShardData.MarshalProto() and re-signed (passes Validate, fails ConstructMessageFromUnits with a root mismatch)"
 	c.Finish("A: PadMessage/UnpadMessage for every length 0..300 + varint boundaries x k in {1,2,3,5,7,16,33,64}, malformed prefixes; " +
 		"B: CreatePropellerUnits -> subsets (all 2^n for n<=8 on 15 lengths incl. 0,126..129,300; sampled incl. shard-0-missing and exactly-k otherwise) -> ConstructMessageFromUnits, " +
 		"padding/shards/root/proofs compared with the model through SHA-256 evaluation of its digest terms, tampered units into construct; " +
+		"M: merkle.New/Proof.Verify alone vs the model tree over leaf lengths 0,1,31..33,55..57,63..65,119..121,127..129,255..257,500,1000..1050,2047..2049,4095..4097,65535..65537,random<=70000 with 1..9 leaves, one-byte/length tampers must not verify; " +
+		"B2: shard sizes 2..4096 (every even size 1000..1050) and 65536, byte flips at first/middle/second-to-last/last position with exactly k and with all units present; " +
 		"C: UnitValidator.Validate sequences over committees of 2..13 with single-field corruptions, verdict compared with the model. " +
 		"non-trivial = at least one unit missing / tampered / non-empty message; distinct by full case")
 }
